@@ -60,6 +60,13 @@ func filterDependencies(n *component_definition.Property, metas []*component_def
 	if len(result) == 0 {
 		return nil, errors.Errorf("inject '%s' not found available components", n)
 	}
+	//the holder itself is never a candidate next to others: remove it before ranking, so that
+	//the choice among the remaining candidates does not depend on their order
+	if others := fas.Filter(result, func(m *component_definition.Meta) bool {
+		return !n.Holder.Meta.IsSelf(m)
+	}); len(others) != 0 {
+		result = others
+	}
 	//filter qualifier
 	if qualifierName, isQualifier := n.Args().Find(component_definition.ArgQualifier); isQualifier {
 		result = fas.Filter(result, func(m *component_definition.Meta) bool {
